@@ -47,6 +47,13 @@ Modelling decisions (all stated in the evidence `explanation` as well):
       the module/class is executed through the wrapper the decorator
       returns; an uninterpretable decorator is refused.
     - C19.f: the Uri-Path is (); no mutating sink may be reachable.
+    - C19.h (no executor): the value the permission parameter *receives* at
+      every construction of the class in the package is evaluated backwards
+      through parameters (defaults, every call site), `**vars(namespace)` /
+      `namespace.attr` and the argparse declaration of the option (action,
+      default=, set_defaults, constructor of an Action subclass of the
+      package) to the values it holds when the option is absent from the
+      command line; each must be false.  Anything else is refused.
     - C19.d: the values reaching seek/read/the response are compared by
       normal form in every state.
     - C19.e (2): every stat/unlink that is the first file-system operation
@@ -88,7 +95,10 @@ R = Rules(
         "from it holding the corresponding value) no mutating sink (including those in helpers, closures, lambdas, "
         "module-level helpers, methods handed over as callables, and behind decorators) is reachable, the exits after the "
         "permission was consulted answer 4.03, and the attributes holding it are only assigned in __init__; (f) with an empty Uri-Path no mutating sink "
-        "is reachable; "
+        "is reachable; (h) at every construction of FileServer in the package the permission argument, followed backwards through "
+        "parameter defaults, call sites, keyword splats / attributes of an argparse namespace and the declaration of the option "
+        "(built-in action, default=, set_defaults, the constructor chain of an Action subclass up to argparse.Action), is false "
+        "whenever the operator did not give the option; "
         "(d) render_get_file seeks to block.start, reads block.size+1 bytes in binary mode, sets more iff "
         "len(data) > block.size, sends data[:block.size] and answers (block.number, more, block.szx), with "
         "start = number*size; (e) the sanitiser's only escapes are 4.00 renderable errors, the trailing-slash "
@@ -2042,6 +2052,621 @@ def f_not_root(ctx):
     ctx.floor("mutating sinks in FileServer", n, 4)
 
 
+# ---------------------------------------------------------------------------
+# C19.h  where the permission comes from
+
+
+class _Refuse(Exception):
+    pass
+
+
+_NOTPASSED = object()
+_ARGPARSE_BUILTIN_ABSENT = {"store": None, "store_const": None, "append": None, "append_const": None, "count": None,
+                            "extend": None, "store_true": False, "store_false": True}
+
+
+class Permission:
+    """Backward evaluation of "which value does the write-permission argument of a FileServer construction hold when
+    the operator did not ask for write permission".  Sources are followed through parameters (their defaults and
+    every in-package call site), keyword splats of an argparse namespace (`**vars(opts)`, `**opts.__dict__`),
+    attributes of such a namespace, and from there into the declaration of the option with that `dest`: the value
+    argparse stores when the option is absent is computed from `default=`, the built-in action's documented default,
+    `set_defaults`, or -- for an Action subclass of the package -- from the default of its constructor's `default`
+    parameter as handed to `super().__init__`.  Everything the evaluation cannot interpret is a refusal."""
+
+    def __init__(self, prog):
+        self.prog = prog
+        self.sources = []  # (value, fi, node, how)
+        self.decls = 0
+        self.assumed = []
+        self._callers = {}
+
+    # -- generic -----------------------------------------------------------------------------------------------
+    def _qual(self, fi, e):
+        c = chain(e)
+        return self.prog.resolve_in_module(fi.module, c) if c else None
+
+    def _const(self, fi, e, env=None):
+        e = resolve_local(fi.node, e) if isinstance(e, ast.Name) and not (env and e.id in env) else e
+        try:
+            return kit.ceval(e, env or {})
+        except (kit.Unk, kit.CRaise):
+            raise _Refuse("%s: cannot evaluate %s" % (fi.short, stmt_text(e, 60)))
+
+    def _funcs_with_calls(self):
+        if "all" not in self._callers:
+            out = []
+            for g in self.prog.funcs.values():
+                if isinstance(g.node, ast.Lambda):
+                    continue
+                for n in walk_with_lambdas(g.node):
+                    if isinstance(n, (ast.Call, ast.Attribute)):
+                        out.append((g, n))
+            self._callers["all"] = out
+        return self._callers["all"]
+
+    def _callee(self, g, call):
+        """FuncInfo of an in-package function/method a call resolves to (self./cls./type(self)./Class. receivers and
+        plain names), else None"""
+        f = call.func
+        if isinstance(f, ast.Name):
+            q = self.prog.resolve_in_module(g.module, f.id)
+            return self.prog.funcs.get(q)
+        if isinstance(f, ast.Attribute):
+            m = g
+            while m.parent is not None:
+                m = m.parent
+            rcv = f.value
+            sn = _self_name(g)
+            if m.cls is not None and ((isinstance(rcv, ast.Name) and rcv.id in (sn, "cls", "self"))
+                                      or (isinstance(rcv, ast.Call) and (chain(rcv.func) or "") == "type")
+                                      or (isinstance(rcv, ast.Attribute) and rcv.attr == "__class__")):
+                return self.prog.lookup_method(m.cls.qn, f.attr)
+            q = self._qual(g, f)
+            if q in self.prog.funcs:
+                return self.prog.funcs[q]
+            if q and q.rsplit(".", 1)[0] in self.prog.classes:
+                return self.prog.lookup_method(q.rsplit(".", 1)[0], f.attr)
+        return None
+
+    # -- values ------------------------------------------------------------------------------------------------
+    def values(self, fi, e, depth=0):
+        """[(value, fi, node, how)] of expression e evaluated in fi"""
+        if depth > 8:
+            raise _Refuse("the permission is passed through more than 8 levels")
+        try:
+            return [(kit.ceval(e), fi, e, "the constant %s" % stmt_text(e, 30))]
+        except (kit.Unk, kit.CRaise):
+            pass
+        if isinstance(e, ast.Name):
+            if Scope(fi).param_default(e.id)[0] or any(p is not None and p.arg == e.id for p in (fi.node.args.vararg, fi.node.args.kwarg)):
+                if writes_to_name(fi.node, e.id):
+                    raise _Refuse("%s: the parameter %s is reassigned" % (fi.short, e.id))
+                return self.param_values(fi, e.id, depth)
+            ws = writes_to_name(fi.node, e.id)
+            if len(ws) == 1 and isinstance(ws[0], (ast.Assign, ast.AnnAssign)) and ws[0].value is not None \
+                    and (isinstance(ws[0], ast.AnnAssign) or (len(ws[0].targets) == 1 and isinstance(ws[0].targets[0], ast.Name))):
+                return self.values(fi, ws[0].value, depth + 1)
+            raise _Refuse("%s: cannot attribute the value of %s to one assignment" % (fi.short, e.id))
+        if isinstance(e, ast.UnaryOp) and isinstance(e.op, ast.Not):
+            return [(not v, f, n, "not (%s)" % how) for v, f, n, how in self.values(fi, e.operand, depth + 1)]
+        if isinstance(e, ast.Call) and isinstance(e.func, ast.Name) and e.func.id == "bool" and len(e.args) == 1 and not e.keywords:
+            return [(bool(v), f, n, how) for v, f, n, how in self.values(fi, e.args[0], depth + 1)]
+        if isinstance(e, ast.IfExp):
+            out = []
+            for t in self.values(fi, e.test, depth + 1):
+                out += self.values(fi, e.body if t[0] else e.orelse, depth + 1)
+            return out
+        if isinstance(e, ast.BoolOp):
+            # a or b / a and b over finitely many values of each operand
+            vals = [self.values(fi, x, depth + 1) for x in e.values]
+            res = []
+
+            def rec(i):
+                for t in vals[i]:
+                    decided = bool(t[0]) if isinstance(e.op, ast.Or) else not bool(t[0])
+                    if decided or i == len(vals) - 1:
+                        res.append(t)
+                    else:
+                        rec(i + 1)
+            rec(0)
+            return res
+        if isinstance(e, ast.Attribute):
+            ns = self.namespace_parser(fi, e.value)
+            if ns is not None:
+                got = self.namespace_values(fi, e.value, ns, e.attr, depth)
+                if not got:
+                    raise _Refuse("%s: no command-line option declares the attribute %s" % (fi.short, stmt_text(e, 40)))
+                return got
+        raise _Refuse("%s: cannot determine the value of %s" % (fi.short, stmt_text(e, 60)))
+
+    def call_sites(self, h):
+        """(g, call) for every in-package call that resolves to h; a reference that is not a call is refused"""
+        out = []
+        for g, n in self._funcs_with_calls():
+            if isinstance(n, ast.Call):
+                f = n.func
+                if (isinstance(f, ast.Attribute) and f.attr == h.name) or (isinstance(f, ast.Name) and f.id == h.name):
+                    c = self._callee(g, n)
+                    if c is h:
+                        out.append((g, n))
+                    elif c is None and isinstance(f, ast.Attribute) and sum(1 for x in self.prog.funcs.values() if x.name == h.name) == 1:
+                        out.append((g, n))  # unknown receiver, only one function of that name in the package
+        called = {id(c.func) for _, c in out}
+        for g, n in self._funcs_with_calls():
+            if isinstance(n, ast.Attribute) and n.attr == h.name and id(n) not in called and isinstance(n.ctx, ast.Load):
+                par = self.prog.parent_map(g.module).get(id(n))
+                if isinstance(par, ast.Call) and par.func is n:
+                    continue
+                if self._callee(g, ast.Call(func=n, args=[], keywords=[])) is h:
+                    raise _Refuse("%s is handed over as a callable in %s" % (h.short, g.short))
+        return out
+
+    def param_values(self, h, name, depth):
+        out = []
+        has, d = Scope(h).param_default(name)
+        if d is not None:
+            out.append((self._const(h, d), h, d, "the default of the parameter %s of %s" % (name, h.name)))
+        for g, call in self.call_sites(h):
+            out += self.bound_values(g, call, h, name, depth)
+        if not out:
+            raise _Refuse("%s: the parameter %s has neither a default nor a call site in the package" % (h.short, name))
+        return out
+
+    def bound_values(self, g, call, h, name, depth):
+        """values the parameter `name` of h receives at `call` in g ([] when the call leaves it to its default)"""
+        a = h.node.args
+        ps = [p.arg for p in a.posonlyargs + a.args]
+        if h.cls is not None and not any((chain(d) or "") == "staticmethod" for d in h.node.decorator_list) \
+                and (isinstance(call.func, ast.Attribute) or h.name == "__init__"):
+            ps = ps[1:]
+        for i, x in enumerate(call.args):
+            if isinstance(x, ast.Starred):
+                raise _Refuse("%s: %s passes *arguments" % (g.short, stmt_text(call, 50)))
+            if i < len(ps) and ps[i] == name:
+                return self.values(g, x, depth + 1)
+        for kw in call.keywords:
+            if kw.arg == name:
+                return self.values(g, kw.value, depth + 1)
+        out = []
+        for kw in call.keywords:
+            if kw.arg is None:
+                v = resolve_local(g.node, kw.value)
+                if isinstance(v, ast.Call) and isinstance(v.func, ast.Name) and v.func.id == "dict" and len(v.args) == 1 and not v.keywords:
+                    v = resolve_local(g.node, v.args[0])  # dict(m): a copy of the mapping
+                if isinstance(v, ast.Dict) and len(v.keys) == 1 and v.keys[0] is None:
+                    v = resolve_local(g.node, v.values[0])  # {**m}
+                if isinstance(kw.value, ast.Name):
+                    out += self._mapping_updates(g, kw.value.id, name, call, depth)
+                lit = self._literal_mapping(g, v)
+                if lit is not None:
+                    if name in lit:
+                        out += self.values(g, lit[name], depth + 1)
+                    continue
+                nsx = None
+                if isinstance(v, ast.Call) and isinstance(v.func, ast.Name) and v.func.id == "vars" and len(v.args) == 1:
+                    nsx = v.args[0]
+                elif isinstance(v, ast.Attribute) and v.attr == "__dict__":
+                    nsx = v.value
+                ns = self.namespace_parser(g, nsx) if nsx is not None else None
+                if ns is None:
+                    raise _Refuse("%s: %s passes **keywords the rule cannot attribute to an argparse namespace" % (g.short, stmt_text(call, 50)))
+                out += self.namespace_values(g, nsx, ns, name, depth)
+        return out
+
+    def _mapping_updates(self, g, m, name, call, depth):
+        """values stored under the key `name` into the local mapping m of g (m[name] = v); removing keys only lets
+        defaults apply, which are among the sources anyway; any other modification is refused"""
+        if len(writes_to_name(g.node, m)) != 1:
+            raise _Refuse("%s: the mapping %s splatted into %s is bound more than once" % (g.short, m, stmt_text(call, 50)))
+        out = []
+        for n in walk_with_lambdas(g.node):
+            if isinstance(n, ast.Subscript) and isinstance(n.value, ast.Name) and n.value.id == m and isinstance(n.ctx, ast.Store):
+                par = self.prog.parent_map(g.module).get(id(n))
+                try:
+                    k = kit.ceval(n.slice)
+                except (kit.Unk, kit.CRaise):
+                    k = None
+                if not isinstance(k, str) or not (isinstance(par, ast.Assign) and len(par.targets) == 1):
+                    raise _Refuse("%s: the mapping %s splatted into %s is filled under a computed key" % (g.short, m, stmt_text(call, 50)))
+                if k == name:
+                    out += self.values(g, par.value, depth + 1)
+            elif isinstance(n, ast.Call) and isinstance(n.func, ast.Attribute) and isinstance(n.func.value, ast.Name) and n.func.value.id == m \
+                    and n.func.attr in ("update", "setdefault", "__setitem__", "__ior__"):
+                raise _Refuse("%s: the mapping %s splatted into %s is modified by %s" % (g.short, m, stmt_text(call, 50), stmt_text(n, 40)))
+            elif isinstance(n, ast.AugAssign) and isinstance(n.target, ast.Name) and n.target.id == m:
+                raise _Refuse("%s: the mapping %s splatted into %s is modified by %s" % (g.short, m, stmt_text(call, 50), stmt_text(n, 40)))
+        return out
+
+    def _literal_mapping(self, g, v):
+        """{key: value expression} of a dict display with constant string keys / a dict(k=v, ...) call, else None"""
+        if isinstance(v, ast.Dict) and all(k is not None for k in v.keys):
+            try:
+                return {kit.ceval(k): x for k, x in zip(v.keys, v.values)}
+            except (kit.Unk, kit.CRaise):
+                raise _Refuse("%s: mapping with computed keys %s" % (g.short, stmt_text(v, 50)))
+        if isinstance(v, ast.Call) and isinstance(v.func, ast.Name) and v.func.id == "dict" and not v.args and all(k.arg is not None for k in v.keywords):
+            return {k.arg: k.value for k in v.keywords}
+        return None
+
+    # -- argparse ----------------------------------------------------------------------------------------------
+    def namespace_parser(self, g, x):
+        """(function, parser expression) when x is the result of <parser>.parse_args() in g, else None"""
+        if isinstance(x, ast.Name) and assigned_value(g.node, x.id) is None:
+            # opts, rest = parser.parse_known_args()
+            ws = writes_to_name(g.node, x.id)
+            if len(ws) == 1 and isinstance(ws[0], ast.Assign) and len(ws[0].targets) == 1 and isinstance(ws[0].targets[0], (ast.Tuple, ast.List)):
+                t = ws[0].targets[0]
+                if t.elts and isinstance(t.elts[0], ast.Name) and t.elts[0].id == x.id and not any(isinstance(e_, ast.Starred) for e_ in t.elts):
+                    x = ast.Subscript(value=ws[0].value, slice=ast.Constant(value=0), ctx=ast.Load())
+        x = resolve_local(g.node, x)
+        if isinstance(x, ast.Subscript):
+            try:
+                idx = kit.ceval(x.slice)
+            except (kit.Unk, kit.CRaise):
+                return None
+            inner = resolve_local(g.node, x.value)
+            if idx == 0 and isinstance(inner, ast.Call) and isinstance(inner.func, ast.Attribute) and inner.func.attr in ("parse_known_args", "parse_known_intermixed_args"):
+                x = inner
+            else:
+                return None
+        if isinstance(x, ast.Call) and isinstance(x.func, ast.Attribute) and x.func.attr in ("parse_args", "parse_intermixed_args", "parse_known_args", "parse_known_intermixed_args"):
+            if len(x.args) > 1 or any(kw.arg in ("namespace", None) for kw in x.keywords):
+                raise _Refuse("%s: %s fills a namespace given by the caller" % (g.short, stmt_text(x, 50)))
+            return x.func.value
+        return None
+
+    def namespace_values(self, g, nsx, parser, dest, depth):
+        """values of namespace attribute `dest` when its option is absent from the command line, plus whatever the
+        program itself stores into that attribute"""
+        out = []
+        decls, defaults = [], []
+        self.scan_parser(g, parser, decls, defaults, set())
+        mine = []
+        for f, call in decls:
+            d = self.decl_dest(f, call)
+            if d == dest:
+                mine.append((f, call))
+        self.decls += len(mine)
+        # argparse: the first action declared for a dest provides its value when none of its options is given
+        if len(mine) > 1:
+            same = {id(f) for f, _ in mine}
+            stmts = {id(st.value): i for i, st in enumerate(mine[0][0].node.body) if isinstance(st, ast.Expr)}
+            if len(same) == 1 and all(id(c) in stmts for _, c in mine):
+                mine = [min(mine, key=lambda fc: stmts[id(fc[1])])]
+        for f, call in mine:
+            r = self.decl_absent(f, call)
+            if r is not None:
+                out.append((r[0], f, call, "the value argparse stores for %s when the option is not given" % stmt_text(call.args[0] if call.args else call, 30)))
+        for f, call in defaults:
+            for kw in call.keywords:
+                if kw.arg is None:
+                    raise _Refuse("%s: %s sets defaults the rule cannot enumerate" % (f.short, stmt_text(call, 50)))
+                if kw.arg == dest:
+                    out.append((self._const(f, kw.value), f, call, "the parser default set by %s" % stmt_text(call, 40)))
+        # stores into the namespace by the program
+        if isinstance(nsx, ast.Name):
+            out += self.namespace_stores(g, nsx.id, dest, depth, set())
+        return out
+
+    def namespace_stores(self, g, name, dest, depth, seen):
+        if (g.qn, name) in seen:
+            return []
+        seen.add((g.qn, name))
+        out = []
+        for n in walk_with_lambdas(g.node):
+            if isinstance(n, ast.Attribute) and isinstance(n.ctx, ast.Store) and n.attr == dest and isinstance(n.value, ast.Name) and n.value.id == name:
+                par = self.prog.parent_map(g.module).get(id(n))
+                if isinstance(par, ast.Assign) and len(par.targets) == 1:
+                    out += self.values(g, par.value, depth + 1)
+                elif isinstance(par, ast.AnnAssign) and par.value is not None:
+                    out += self.values(g, par.value, depth + 1)
+                else:
+                    raise _Refuse("%s: %s.%s is stored in a way the rule cannot evaluate" % (g.short, name, dest))
+            if not isinstance(n, ast.Call):
+                continue
+            cn = chain(n.func) or ""
+            if cn == "setattr" and n.args and isinstance(n.args[0], ast.Name) and n.args[0].id == name:
+                try:
+                    k = kit.ceval(resolve_local(g.node, n.args[1]))
+                except (kit.Unk, kit.CRaise, IndexError):
+                    raise _Refuse("%s: %s stores an attribute whose name is not constant" % (g.short, stmt_text(n, 50)))
+                if k == dest:
+                    out += self.values(g, n.args[2], depth + 1)
+                continue
+            h = None
+            for i, x in enumerate(n.args):
+                if isinstance(x, ast.Name) and x.id == name:
+                    h = h or self._callee(g, n)
+                    if h is not None:
+                        ps = self._pos_params(h, n)
+                        if i < len(ps):
+                            out += self.namespace_stores(h, ps[i], dest, depth + 1, seen)
+            for kw in n.keywords:
+                if isinstance(kw.value, ast.Name) and kw.value.id == name and kw.arg is not None:
+                    h = h or self._callee(g, n)
+                    if h is not None:
+                        out += self.namespace_stores(h, kw.arg, dest, depth + 1, seen)
+        return out
+
+    def _pos_params(self, h, call):
+        a = h.node.args
+        ps = [p.arg for p in a.posonlyargs + a.args]
+        if h.cls is not None and not any((chain(d) or "") == "staticmethod" for d in h.node.decorator_list) \
+                and (isinstance(call.func, ast.Attribute) or h.name == "__init__"):
+            ps = ps[1:]
+        return ps
+
+    def scan_parser(self, g, parser, decls, defaults, seen):
+        """collect the add_argument / set_defaults calls made on the parser `parser` (an expression in g)"""
+        p = resolve_local(g.node, parser)
+        names = set()
+        if isinstance(parser, ast.Name):
+            names.add(parser.id)
+        if isinstance(p, ast.Call):
+            q = self._qual(g, p.func)
+            if q == "argparse.ArgumentParser":
+                self.check_ctor(g, p)
+            else:
+                h = self._callee(g, p)
+                if h is None:
+                    raise _Refuse("%s: cannot find where the parser %s is built" % (g.short, stmt_text(p, 50)))
+                rets = [n for n in walk_no_nested(h.node) if isinstance(n, ast.Return)]
+                if not rets or any(r.value is None for r in rets):
+                    raise _Refuse("%s does not return a parser on every path" % h.short)
+                for r in rets:
+                    self.scan_parser(h, r.value, decls, defaults, seen)
+        elif isinstance(p, ast.Name) and Scope(g).param_default(p.id)[0]:
+            pass  # a parameter: the caller's side has been scanned by whoever stepped into g
+        else:
+            raise _Refuse("%s: cannot find where the parser %s is built" % (g.short, stmt_text(parser, 50)))
+        if names:
+            self.scan_uses(g, names, decls, defaults, seen)
+
+    def check_ctor(self, g, call):
+        for kw in call.keywords:
+            if kw.arg is None or kw.arg == "parents":
+                raise _Refuse("%s: %s inherits options the rule does not enumerate" % (g.short, stmt_text(call, 50)))
+            if kw.arg == "argument_default" and self._const(g, kw.value) is not None:
+                raise _Refuse("%s: parser-wide argument_default" % g.short)
+
+    def scan_uses(self, g, names, decls, defaults, seen):
+        key = (g.qn, tuple(sorted(names)))
+        if key in seen:
+            return
+        seen.add(key)
+        names = set(names)
+        grew = True
+        while grew:
+            grew = False
+            for n in walk_with_lambdas(g.node):
+                if isinstance(n, ast.Assign) and len(n.targets) == 1 and isinstance(n.targets[0], ast.Name) and n.targets[0].id not in names:
+                    v = n.value
+                    if isinstance(v, ast.Call) and isinstance(v.func, ast.Attribute) and isinstance(v.func.value, ast.Name) and v.func.value.id in names \
+                            and v.func.attr in ("add_argument_group", "add_mutually_exclusive_group"):
+                        names.add(n.targets[0].id)
+                        grew = True
+                    elif isinstance(v, ast.Name) and v.id in names:
+                        names.add(n.targets[0].id)
+                        grew = True
+        for n in walk_with_lambdas(g.node):
+            if not isinstance(n, ast.Call):
+                continue
+            f = n.func
+            if isinstance(f, ast.Attribute) and isinstance(f.value, ast.Name) and f.value.id in names:
+                if f.attr == "add_argument":
+                    decls.append((g, n))
+                elif f.attr == "set_defaults":
+                    defaults.append((g, n))
+                elif f.attr in ("add_subparsers", "register"):
+                    raise _Refuse("%s: %s changes how options are declared" % (g.short, stmt_text(n, 50)))
+                continue
+            passed = [(i, None) for i, x in enumerate(n.args) if isinstance(x, ast.Name) and x.id in names] + \
+                     [(None, kw.arg) for kw in n.keywords if isinstance(kw.value, ast.Name) and kw.value.id in names]
+            if not passed:
+                continue
+            h = self._callee(g, n)
+            if h is None:
+                q = self._qual(g, f) or stmt_text(f, 40)
+                if q.split(".")[0] == "aiocoap":
+                    raise _Refuse("%s: the parser is handed to %s, which the rule cannot resolve" % (g.short, q))
+                self.assumed.append("%s (called in %s) does not declare options" % (q, g.short))
+                continue
+            ps = self._pos_params(h, n)
+            sub = set()
+            for i, k in passed:
+                if k is not None:
+                    sub.add(k)
+                elif i < len(ps):
+                    sub.add(ps[i])
+                else:
+                    raise _Refuse("%s: cannot bind the parser argument of %s" % (g.short, stmt_text(n, 50)))
+            self.scan_uses(h, sub, decls, defaults, seen)
+
+    def decl_action(self, f, call):
+        """('builtin', name) | ('class', qualified name)"""
+        for kw in call.keywords:
+            if kw.arg == "action":
+                v = resolve_local(f.node, kw.value)
+                if isinstance(v, ast.Constant) and isinstance(v.value, str):
+                    return "builtin", v.value
+                q = self._qual(f, v)
+                if q:
+                    return "class", q
+                raise _Refuse("%s: cannot interpret the action of %s" % (f.short, stmt_text(call, 50)))
+        return "builtin", "store"
+
+    def decl_dest(self, f, call):
+        """the namespace attribute an add_argument call declares (None: none, e.g. help/version)"""
+        for kw in call.keywords:
+            if kw.arg is None:
+                raise _Refuse("%s: %s declares an option through **keywords" % (f.short, stmt_text(call, 50)))
+        flags = []
+        for x in call.args:
+            if isinstance(x, ast.Starred):
+                raise _Refuse("%s: %s declares an option through *arguments" % (f.short, stmt_text(call, 50)))
+            v = self._const(f, x)
+            if not isinstance(v, str):
+                raise _Refuse("%s: option string of %s is not a string" % (f.short, stmt_text(call, 50)))
+            flags.append(v)
+        for kw in call.keywords:
+            if kw.arg == "dest":
+                return self._const(f, kw.value)
+        kind, act = self.decl_action(f, call)
+        if kind == "builtin" and act in ("help", "version"):
+            return None
+        if not flags:
+            raise _Refuse("%s: %s names no option" % (f.short, stmt_text(call, 50)))
+        longs = [s for s in flags if s.startswith("--")]
+        if longs:
+            return longs[0][2:].replace("-", "_")
+        shorts = [s for s in flags if s.startswith("-")]
+        if shorts:
+            return shorts[0].lstrip("-").replace("-", "_")
+        return flags[0]
+
+    def decl_absent(self, f, call):
+        """(value,) argparse leaves in the namespace when the declared option does not occur on the command line;
+        None when the operator has to state it"""
+        kws = {kw.arg: kw.value for kw in call.keywords}
+        flags = [self._const(f, x) for x in call.args]
+        if not any(s.startswith("-") for s in flags):
+            raise _Refuse("%s: the permission is a positional command-line argument (%s)" % (f.short, stmt_text(call, 50)))
+        if "required" in kws and self._const(f, kws["required"]):
+            return None
+        kind, act = self.decl_action(f, call)
+        if "default" in kws:
+            if (self._qual(f, resolve_local(f.node, kws["default"])) or "") == "argparse.SUPPRESS":
+                raise _Refuse("%s: %s suppresses the attribute" % (f.short, stmt_text(call, 50)))
+            v = self._const(f, kws["default"])
+            if isinstance(v, str) and "type" in kws:
+                raise _Refuse("%s: string default of %s is converted by type=" % (f.short, stmt_text(call, 50)))
+            if kind == "class" and act != "argparse.BooleanOptionalAction":
+                return (self.action_default(act, v, 0),)
+            return (v,)
+        if kind == "builtin":
+            if act not in _ARGPARSE_BUILTIN_ABSENT:
+                raise _Refuse("%s: unknown argparse action %r" % (f.short, act))
+            return (_ARGPARSE_BUILTIN_ABSENT[act],)
+        if act == "argparse.BooleanOptionalAction":
+            return (None,)
+        return (self.action_default(act, _NOTPASSED, 0),)
+
+    def action_default(self, clsqn, passed, depth):
+        """the `default` an Action subclass ends up with when add_argument passes `passed` (or nothing): its
+        constructor is followed up to argparse.Action, whose own default for `default` is None"""
+        if depth > 6:
+            raise _Refuse("action class hierarchy too deep")
+        if clsqn == "argparse.Action":
+            return None if passed is _NOTPASSED else passed
+        ci = self.prog.classes.get(clsqn)
+        if ci is None:
+            raise _Refuse("cannot interpret the argparse action %s" % clsqn)
+        if len(ci.bases) != 1:
+            raise _Refuse("argparse action %s has several bases" % clsqn)
+        for hook in ("__new__", "__init_subclass__", "__getattribute__", "__setattr__"):
+            if hook in ci.methods:
+                raise _Refuse("argparse action %s defines %s" % (clsqn, hook))
+        for name, m in ci.methods.items():
+            sn = _self_name(m)
+            if sn and stores_to(m.node, sn + ".default"):
+                raise _Refuse("%s.%s assigns self.default" % (clsqn, name))
+        init = ci.methods.get("__init__")
+        if init is None:
+            return self.action_default(ci.bases[0], passed, depth + 1)
+        has, d = Scope(init).param_default("default")
+        env = {}
+        kwname = init.node.args.kwarg.arg if init.node.args.kwarg is not None else None
+        if has:
+            if passed is _NOTPASSED:
+                if d is None:
+                    raise _Refuse("%s.__init__ requires a default that the declaration does not pass" % clsqn)
+                env["default"] = self._const(init, d)
+            else:
+                env["default"] = passed
+            if writes_to_name(init.node, "default"):
+                raise _Refuse("%s.__init__ reassigns its default parameter" % clsqn)
+        elif kwname is None and passed is not _NOTPASSED:
+            raise _Refuse("%s.__init__ does not accept the default the declaration passes" % clsqn)
+        supers = []
+        for n in walk_with_lambdas(init.node):
+            if isinstance(n, ast.Call) and isinstance(n.func, ast.Attribute) and n.func.attr == "__init__":
+                supers.append(n)
+        if len(supers) != 1 or not any(isinstance(st, ast.Expr) and st.value is supers[0] for st in init.node.body):
+            raise _Refuse("%s.__init__ does not call its base constructor exactly once, unconditionally" % clsqn)
+        call = supers[0]
+        rcv = call.func.value
+        explicit_self = not (isinstance(rcv, ast.Call) and (chain(rcv.func) or "") == "super")
+        args = call.args[1:] if explicit_self else call.args
+        nxt = _NOTPASSED
+        if any(isinstance(x, ast.Starred) for x in args):
+            raise _Refuse("%s.__init__ forwards *arguments" % clsqn)
+        if len(args) > 4:  # Action(option_strings, dest, nargs, const, default, ...)
+            nxt = self._const(init, args[4], env)
+        for kw in call.keywords:
+            if kw.arg == "default":
+                nxt = self._const(init, kw.value, env)
+            elif kw.arg is None:
+                if isinstance(kw.value, ast.Name) and kw.value.id == kwname and not writes_to_name(init.node, kwname) \
+                        and not stores_to(init.node, kwname):
+                    if not has and passed is not _NOTPASSED:
+                        nxt = passed
+                else:
+                    raise _Refuse("%s.__init__ forwards **keywords the rule cannot enumerate" % clsqn)
+        return self.action_default(ci.bases[0], nxt, depth + 1)
+
+
+@R.clause("C19.h", "the permission a FileServer is constructed with is read-only unless the operator asked for write access: parameter defaults, call sites and the command-line declaration of the option all yield a false value when the option is absent")
+def h_permission_source(ctx):
+    """"Without write permission no request modifies the file system" is decided inside the class by C19.c for the
+    constructor's permission parameter being false.  This clause closes the chain in front of it: the value that
+    parameter *receives* at every construction of the class in the package.  It is evaluated backwards (see
+    Permission) to the set of values it can hold when nobody asked for write access -- the defaults of the
+    parameters it travels through, and for a command-line namespace the value argparse stores for an absent option,
+    which depends on the action (store_true: False, store_false: True, store: None, an Action subclass of the
+    package: whatever its constructor hands to argparse.Action as `default`), on `default=` and on `set_defaults`.
+    Each such value must be false.  Added after an independently written change switched the option to a yes/no
+    action class whose `default` parameter defaults to True: FileServer and its handlers were untouched and every
+    server started without --write was writable."""
+    prog = ctx.prog
+    fl = Flow(prog)
+    param, default, derived = _permission_config(prog, fl)
+    ctx.need(param is not None, "cannot find the write-permission parameter of FileServer.__init__")
+    fsqn = fl.ci.qn
+    init = fl.ci.methods.get("__init__")
+    P = Permission(prog)
+    sites = []
+    for g, n in P._funcs_with_calls():
+        if isinstance(n, ast.Call):
+            c = chain(n.func)
+            if c and (c.split(".")[0] in g.module.imports or (g.module.name + "." + c.split(".")[0]) in prog.classes):
+                q = prog.resolve_in_module(g.module, c)
+                if q in prog.classes and prog.is_subclass(q, fsqn):
+                    sites.append((g, n, q))
+    ctx.floor("constructions of FileServer in the package", len(sites), 1)
+    total = 0
+    for g, call, q in sites:
+        ctx.need(prog.lookup_method(q, "__init__") is init, "%s is constructed through another constructor than FileServer.__init__" % q)
+        try:
+            vals = P.bound_values(g, call, init, param, 0)
+        except _Refuse as e:
+            raise AnalysisError("C19.h: the source of the write permission of %s cannot be followed: %s" % (stmt_text(call, 60), e))
+        if not vals:
+            ctx.ob("the construction leaves the permission to the constructor's read-only default", True, g, call)
+        seen = set()
+        for v, f, node, how in vals:
+            key = (id(node), repr(v))
+            if key in seen:
+                continue
+            seen.add(key)
+            total += 1
+            ctx.ob("when the operator has not asked for write access, %s reaching %s is false" % (how, stmt_text(call, 50)),
+                   not v, f, node, detail="evaluates to %r%s" % (v, ": every server started this way is writable" if v else ""))
+    ctx.floor("command-line declarations of the permission option", P.decls, 1)
+    for a_ in sorted(set(P.assumed)):
+        ctx.note("assumed: " + a_)
+
+
 F = "aiocoap/cli/fileserver.py"
 # C19.a
 R.seed("C19.a", F, "            path.unlink()\n", "            (self.root / \"/\".join(request.opt.uri_path)).unlink()\n", "sink fed from request.opt.uri_path directly")
@@ -2123,3 +2748,18 @@ R.seed("C19.g", F, "        return self.root / \"/\".join(path)\n", "        joi
        "white space stripped from the joined string after the checks: ' ..' becomes '..'")
 R.seed("C19.g", F, "        return self.root / \"/\".join(path)\n", "        return Path(str(self.root / \"/\".join(path)).encode(\"ascii\", \"ignore\").decode(\"ascii\"))\n",
        "non-ASCII characters dropped from the finished path: '..\\u00e9' becomes '..'")
+# C19.h
+_W = "p.add_argument(\"--write\", help=\"Allow writes by any user\", action=\"store_true\")"
+R.seed("C19.h", F, _W, _W.replace("store_true", "store_false"), "the option's action stores False when given, so its absence means True")
+R.seed("C19.h", F, _W, _W.replace("action=\"store_true\"", "action=\"store_true\", default=True"), "explicit true default of the option")
+R.seed("C19.h", F, _W, _W.replace("action=\"store_true\"", "action=aiocoap.util.cli.ActionNoYes"),
+       "yes/no action class of the package whose constructor defaults to default=True")
+R.seed("C19.h", F, _W, _W.replace("action=\"store_true\"", "action=\"store_const\", const=True, default=1"), "store_const with a true default")
+R.seed("C19.h", F, "        write=False,\n        etag_length=8,\n    ):\n        log = logging", "        write=True,\n        etag_length=8,\n    ):\n        log = logging",
+       "the programmatic entry point defaults to writable")
+R.seed("C19.h", F, "server = FileServer(path, log, write=write, etag_length=etag_length)", "server = FileServer(path, log, write=not write, etag_length=etag_length)",
+       "permission inverted on the way into the constructor")
+R.seed("C19.h", F, "        add_server_arguments(p)\n\n        return p", "        add_server_arguments(p)\n        p.set_defaults(write=True)\n\n        return p",
+       "parser-level default overrides the action's")
+R.seed("C19.h", F, "        server_opts = extract_server_arguments(opts)\n", "        server_opts = extract_server_arguments(opts)\n        opts.write = True\n",
+       "the program stores into the parsed namespace")
